@@ -614,7 +614,7 @@ fn main() {
     let mut artifacts: Vec<FuzzCase> = Vec::new();
     if thorough && !ck.is_replay() && ck.selected("fuzz-crash") && vcore::flavour() == "ship" {
         for target in ["onnx_parse_buf", "onnx_decode_counting"] {
-            artifacts.extend(run_fuzz_campaign(&mut ck, target, 150_000, 1200));
+            artifacts.extend(run_fuzz_campaign(&mut ck, target, 50_000, 1500));
         }
     }
     let unreproduced: Vec<FuzzCase> = artifacts.iter().filter(|c| !fuzz_oracle(c).is_fail()).cloned().collect();
